@@ -422,3 +422,15 @@ Proof. intros [[[[[[[pr pi] c] s] [a1 b1]] [a2 b2]] [a3 b3]] [a4 b4]].
 Lemma lens_integrand_r_Q_R : forall t, cQ2R (lens_integrand_r QO t) = lens_integrand_r RO (ltermQ2R t).
 Proof. intros [[[[[[[pr pi] c] s] [a1 b1]] [a2 b2]] [a3 b3]] [a4 b4]].
   unfold lens_integrand_r, ltermQ2R, cQ2R, cmul, cadd, csub, cscale. cbn [fst snd]. q2r. Qed.
+
+Lemma QF_add_Qeq : forall a b : Q, (add QF a b == add QO a b)%Q.
+Proof. intros [n1 d1] [n2 d2]. cbn [add QF QO]. unfold Qadd_fast. cbn [Qden Qnum].
+  destruct (Pos.eqb_spec d1 d2) as [E|NE]; [|reflexivity]. subst d2.
+  unfold Qeq, Qplus. cbn [Qden Qnum]. rewrite Pos2Z.inj_mul. ring. Qed.
+Lemma QF_sub_Qeq : forall a b : Q, (sub QF a b == sub QO a b)%Q.
+Proof. intros [n1 d1] [n2 d2]. cbn [sub QF QO]. unfold Qsub_fast. cbn [Qden Qnum].
+  destruct (Pos.eqb_spec d1 d2) as [E|NE]; [|reflexivity]. subst d2.
+  unfold Qeq, Qminus, Qplus, Qopp. cbn [Qden Qnum]. rewrite Pos2Z.inj_mul. ring. Qed.
+Lemma QF_other_fields : mul QF = mul QO /\ opp QF = opp QO /\ inv QF = inv QO /\ ltb QF = ltb QO /\
+  leb QF = leb QO /\ eqb QF = eqb QO /\ ofZ QF = ofZ QO /\ zero QF = zero QO /\ one QF = one QO.
+Proof. repeat split. Qed.
